@@ -19,7 +19,12 @@ in-place mutations of tensors (requires_grad_ flip, writes through .data and thr
 writes, attribute replacement by another kind, append / pop / setitem / delete, changes inside a nested object}
 up to depth 3 (quick) / 4 (thorough): every load (after every save in the quick tier) must equal the object as
 it was at the save that wrote the target, and earlier targets must still load to what the object was then. A WIDTH family
-stores containers of 9..101 elements (slot names of 1, 2 and 3 digits). A LAYOUT family stores tensors and arrays of every
+stores containers of 9..101 elements (slot names of 1, 2 and 3 digits). An ALIASING family stores graphs in which one object (AutoSerialize child, ndarray, tensor, list, dict, set, Path, module)
+occurs several times (two attributes, twice in a list, list and dict, diamond, two depths): every occurrence must load back
+equal (identity between occurrences after load is counted, not claimed); true cycles are measured (refused loudly = counted;
+saved and loaded = must equal the input). A GLOBAL-MODE family saves and/or loads a reduced graph set under torch.no_grad,
+set_grad_enabled(False), inference_mode, default dtype float64, warnings as errors, np.errstate(all='raise'), a relative
+target after chdir and a private TMPDIR: the result must be what the default mode gives. A LAYOUT family stores tensors and arrays of every
 memory layout (partial / strided / scalar / transposed / expanded / narrowed / empty views, non-leaf views, Fortran order,
 negative strides, read-only, broadcast) x requires_grad x dtype as direct attribute, inside list / tuple / dict and inside a
 nested object. A KEY-SPELLING family uses dict keys and attribute names with dots (also one key being a prefix of another up
@@ -103,8 +108,9 @@ def _exc_failure(relation, symptom, exc, desc, store, seed, wd, what, blame=True
     return cls, msg
 
 
-def run_graph(desc, seed, scratch):
-    """All three relations for one graph in both stores. Returns (fails, outcome, nontrivial, roundtrips)."""
+def run_graph(desc, seed, scratch, keep=None):
+    """All three relations for one graph in both stores. Returns (fails, outcome, nontrivial, roundtrips).
+    `keep` (a dict) receives the loaded objects per store."""
     fails, loaded, outcome, rts, has_attrs = [], {}, {}, 0, False
     with S.Workdir(scratch, "C01") as wd:
         for store in STORES:
@@ -122,6 +128,8 @@ def run_graph(desc, seed, scratch):
                 fails.append((S.cls_of(d1[0], relation="load_save_equals_input"), f"store={store} graph {S.show(desc)}: load(save(x)) differs from x: {S.fmt(d1)}"))
                 continue
             loaded[store] = y
+            if keep is not None:
+                keep[store] = y
             st2, z = S.save_load(y, wd, store, name="b")
             rts += 1
             if st2 != "ok":
@@ -150,7 +158,14 @@ def run_graph(desc, seed, scratch):
 def eval_graph(item, seed=0, scratch="/tmp"):
     t = Tally()
     desc = item["g"]
-    fails, outcome, nontrivial, rts = run_graph(desc, seed, scratch)
+    keep = {} if item["fam"] == "aliasing" else None
+    fails, outcome, nontrivial, rts = run_graph(desc, seed, scratch, keep=keep)
+    if keep:
+        exp = S.build(desc, seed)
+        for y in keep.values():
+            g, pres = S.alias_account(exp, y)
+            t.extra["alias_groups_loaded"] += g
+            t.extra["alias_groups_still_one_object_after_load"] += pres
     for store in STORES:
         t.case(key=[desc, store], nontrivial=nontrivial, outcome=outcome.get(store))
     t.extra["roundtrips"] += rts
@@ -158,8 +173,111 @@ def eval_graph(item, seed=0, scratch="/tmp"):
     t.extra["graphs_" + item["fam"]] += 1
     for cls, msg in fails:
         t.fail(dict(cls, **item.get("tag", {})), {"kind": "graph", "fam": item["fam"], "graph": desc, "seed": seed, "tag": item.get("tag", {})}, msg)
-    if item["fam"] in ("pair_of_dispatch_classes", "object_nesting", "container_nesting", "layout", "key_spelling"):
+    if item["fam"] in ("pair_of_dispatch_classes", "object_nesting", "container_nesting", "layout", "key_spelling", "aliasing"):
         t.sample({"family": item["fam"], "graph": S.show(desc), "stores": list(STORES), "relations": ["load_save_equals_input", "zip_equals_dir", "fixed_point"], "observed": "equal" if not fails else f"{len(fails)} failure(s)"}, cap=1)
+    return t
+
+
+# ----------------------------------------------------------------------------- true cycles (measured, not claimed)
+def run_cycle(item, seed, scratch):
+    """An object that contains itself. The property does not cover it; the library may refuse loudly (counted).
+    If it saves AND loads, nothing may be silently dropped: the loaded graph must equal the input (cycle-aware)."""
+    import inspect
+    import sys
+
+    name, desc, store = item["name"], item["g"], item["store"]
+    fails = []
+    with S.Workdir(scratch, "C01") as wd:
+        x = S.build(desc, seed)
+        old = sys.getrecursionlimit()
+        # the refusal on HEAD is a RecursionError after ~1000 nested zarr groups (minutes); a lower limit gives the same
+        # answer in seconds. 110 frames above the current depth = a few dozen nested groups.
+        sys.setrecursionlimit(len(inspect.stack()) + 110)
+        try:
+            st, y = S.save_load(x, wd, store, name="cyc")
+        finally:
+            sys.setrecursionlimit(old)
+        if st != "ok":
+            return fails, [st, type(y).__name__]
+        d = S.diff(S.build(desc, seed), y, slack=True)
+        if d:
+            cls = S.cls_of(d[0], relation="cycle_not_silently_dropped", cycle=name)
+            fails.append((cls, f"store={store} cyclic graph {S.show(desc)}: save and load succeeded but the loaded graph differs from the input (silently dropped data): {S.fmt(d)}"))
+        return fails, ["round_trips", S.summary(y)]
+
+
+def eval_cycle(item, seed=0, scratch="/tmp"):
+    t = Tally()
+    fails, outcome = run_cycle(item, seed, scratch)
+    t.case(key=["cycle", item["name"], item["store"]], nontrivial=True, outcome=outcome)
+    t.extra["cycles"] += 1
+    t.extra["cycles_refused_loudly" if outcome[0] != "round_trips" else "cycles_saved_and_loaded"] += 1
+    for cls, msg in fails:
+        t.fail(cls, {"kind": "cycle", "name": item["name"], "graph": item["g"], "store": item["store"], "seed": seed}, msg)
+    return t
+
+
+# ----------------------------------------------------------------------------- global modes
+MODE_GRAPHS = S.mode_graphs()
+# (save mode, load mode): quick sub-lattice; thorough = every mode in all three phases
+MODE_PHASES_QUICK = [
+    ("no_grad", "default"), ("default", "no_grad"), ("no_grad", "no_grad"),
+    ("set_grad_enabled_false", "default"), ("set_grad_enabled_false", "set_grad_enabled_false"),
+    ("inference_mode", "default"), ("inference_mode", "inference_mode"),
+    ("default_dtype_float64", "default_dtype_float64"), ("warnings_as_errors", "warnings_as_errors"), ("np_errstate_raise", "np_errstate_raise"),
+    ("cwd_relative_target", "cwd_relative_target"), ("private_tmpdir", "private_tmpdir"),
+]
+
+
+def mode_phases(quick):
+    if quick:
+        return list(MODE_PHASES_QUICK)
+    out = []
+    for m in S.GLOBAL_MODES:
+        out += [(m, "default"), ("default", m), (m, m)]
+    return out
+
+
+def run_mode(item, seed, scratch):
+    """One graph saved under one global mode and loaded under another, both stores: the loaded graph must equal the
+    in-memory graph exactly as in the default mode. A save/load that raises because a warning became an error is counted."""
+    gname, sm, lm = item["graph"], item["save_mode"], item["load_mode"]
+    desc = MODE_GRAPHS[gname]
+    fails, outcomes, counted = [], {}, 0
+    base = {"relation": "global_mode_independent", "save_mode": sm, "load_mode": lm}
+    with S.Workdir(scratch, "C01") as wd:
+        for store in STORES:
+            x = S.build(desc, seed)  # built in the default mode
+            st, y = S.save_load_under(x, wd, store, sm, lm, name="m" + store)
+            if st != "ok":
+                outcomes[store] = [st, type(y).__name__]
+                if isinstance(y, Warning) and "warnings_as_errors" in (sm, lm):
+                    counted += 1
+                    continue
+                fails.append((dict(base, symptom=st, exc=type(y).__name__, graph=gname), f"graph {gname} {S.show(desc)[:200]} store={store} save under {sm}, load under {lm}: {st.replace('_', ' ')} {type(y).__name__}: {str(y)[:200]} (works in the default mode)"))
+                continue
+            outcomes[store] = S.summary(y)
+            d = S.diff(S.build(desc, seed), y, slack=True)
+            if d:
+                fails.append((S.cls_of(d[0], **base), f"graph {gname} store={store} save under {sm}, load under {lm}: load(save(x)) differs from x: {S.fmt(d)}"))
+    return fails, outcomes, counted
+
+
+def eval_mode(item, seed=0, scratch="/tmp"):
+    t = Tally()
+    fails, outcomes, counted = run_mode(item, seed, scratch)
+    for store in STORES:
+        t.case(key=["mode", item, store], nontrivial=True, outcome=outcomes.get(store))
+    t.extra["mode_points"] += len(STORES)
+    t.extra["mode_points_where_a_warning_became_an_error"] += counted
+    folded = {}
+    for cls, msg in fails:
+        k = repr(sorted(cls.items(), key=repr))
+        folded[k] = (cls, folded[k][1] + " || " + msg[:300]) if k in folded else (cls, msg)
+    for cls, msg in folded.values():
+        t.fail(cls, {"kind": "mode", "graph": item["graph"], "save_mode": item["save_mode"], "load_mode": item["load_mode"], "seed": seed}, msg)
+    if item["graph"] == "tensor_views":
+        t.sample({"family": "global_mode", "graph": item["graph"], "save_mode": item["save_mode"], "load_mode": item["load_mode"], "stores": list(STORES), "observed": "equal to the input" if not fails else f"{len(fails)} failure(s)"}, cap=1)
     return t
 
 
@@ -586,6 +704,11 @@ def run(ctx):
         for i, g in enumerate(core) for s in STORES for c in COMPRESSIONS
     ]
     merged_cfg = ctx.pmap(eval_config, cfg_items, chunk=2, label="configurations", seed=ctx.seed, scratch=ctx.scratch)
+    cyc = S.cycle_graphs()
+    cyc_items = [{"name": n, "g": g, "store": st} for i, (n, g) in enumerate(cyc) for st in STORES if not ctx.quick or (st == "zip" and i < 3) or (st == "dir" and i == 3)]
+    merged_c = ctx.pmap(eval_cycle, cyc_items, chunk=1, label="cycles (measured)", seed=ctx.seed, scratch=ctx.scratch)
+    mode_items = [{"graph": g, "save_mode": sm, "load_mode": lm} for sm, lm in mode_phases(ctx.quick) for g in MODE_GRAPHS]
+    merged_m = ctx.pmap(eval_mode, mode_items, chunk=2, label="global modes", seed=ctx.seed, scratch=ctx.scratch)
     hdepth = 3 if ctx.quick else 4
     hitems = enumerate_histories(hdepth, ctx.quick)
     merged_h = ctx.pmap(eval_history, hitems, label="histories", seed=ctx.seed, scratch=ctx.scratch)
@@ -595,6 +718,11 @@ def run(ctx):
         covered |= S.dispatch_classes(it["g"])
     need = set(S.REPS) | set(S.KINDS)
     ctx.coverage.update(
+        aliasing={"graphs": [S.show(g)[:160] for g, _ in S._aliasing_graphs()], "groups_of_aliased_occurrences_loaded": int(merged.extra["alias_groups_loaded"]),
+                  "groups_still_one_object_after_load": int(merged.extra["alias_groups_still_one_object_after_load"])},
+        cycles={"graphs": [n for n, _ in cyc], "cases": len(cyc_items), "refused_loudly": int(merged_c.extra["cycles_refused_loudly"]), "saved_and_loaded": int(merged_c.extra["cycles_saved_and_loaded"])},
+        global_modes={"modes": S.GLOBAL_MODES, "save_mode_x_load_mode": [list(x) for x in mode_phases(ctx.quick)], "graphs": {k: S.show(v)[:200] for k, v in MODE_GRAPHS.items()},
+                      "points": int(merged_m.extra["mode_points"]), "points_where_a_warning_became_an_error": int(merged_m.extra["mode_points_where_a_warning_became_an_error"])},
         layouts={"tensor": S.TENSOR_LAYOUTS, "tensor_dtypes": S.TENSOR_LAYOUT_DTYPES, "ndarray": S.ARRAY_LAYOUTS, "ndarray_dtypes": S.ARRAY_LAYOUT_DTYPES,
                  "positions": ["attribute", "list", "tuple", "dict", "nested_object"]},
         key_spellings={"key_sets": [[c, [k if len(k) <= 40 else k[:8] + f"...<{len(k)} chars>" for k in ks]] for c, ks in S.KEY_SETS], "value_kinds": S.KEY_VALUE_KINDS if not ctx.quick else ["path", "tensor", "tuple"]},
@@ -624,6 +752,8 @@ def run(ctx):
         dispatch_classes_covered=sorted(covered),
         exhaustive=True,
     )
+    if int(merged_c.extra["cycles"]) != len(cyc_items) or int(merged_m.extra["mode_points"]) != len(mode_items) * len(STORES):
+        raise Broken(f"cycle / global-mode enumeration incomplete: {merged_c.extra['cycles']} of {len(cyc_items)}, {merged_m.extra['mode_points']} of {len(mode_items) * len(STORES)}")
     if not need <= covered:
         raise Broken(f"grammar does not cover dispatch classes {sorted(need - covered)}")
     if int(merged.extra["graphs"]) != len(items) or len(items) < 300:
@@ -638,6 +768,21 @@ def run(ctx):
 
 def replay(ctx, case):
     seed = case.get("seed", ctx.seed)
+    if case["kind"] == "cycle":
+        fails, outcome = run_cycle(case, seed, ctx.scratch)
+        for cls, msg in fails:
+            ctx.fail(cls, case, msg)
+        print(f"  cyclic graph {S.show(case['graph'])} store={case['store']}: {str(outcome)[:400]}")
+        print(f"  expected: refused loudly, or loaded equal to the input; observed: {len(fails)} failure(s)")
+        return
+    if case["kind"] == "mode":
+        fails, outcomes, counted = run_mode(case, seed, ctx.scratch)
+        for cls, msg in fails:
+            ctx.fail(cls, case, msg)
+        print(f"  graph {case['graph']}: {S.show(MODE_GRAPHS[case['graph']])[:300]}")
+        print(f"  save under {case['save_mode']}, load under {case['load_mode']}: {str(outcomes)[:500]}")
+        print(f"  expected: equal to the in-memory graph as in the default mode; observed: {len(fails)} failure(s), {counted} warning(s) that became errors")
+        return
     if case["kind"] == "history":
         gname, hist = case["graph"], case["history"]
         print(f"  live object: {S.show(HIST_GRAPHS[gname][0])}  (seed {seed})")
